@@ -317,7 +317,13 @@ func scenDirectedOnce(seed uint64, e *ctxEnv, idx int, which string, scale int, 
 	}
 	defer func() {
 		release()
-		ctx.Dispose()
+		done := make(chan struct{})
+		go func() { ctx.Dispose(); close(done) }()
+		select {
+		case <-done:
+		case <-time.After(callTimeout):
+			e.st.Fail("call-did-not-return", desc, "Dispose at the end of the scenario did not return within "+callTimeout.String(), "every call terminates")
+		}
 	}()
 	reportErrs := func(out callOutcome) {
 		for _, msg := range out.errs {
